@@ -206,6 +206,8 @@ class Adaptor:
 
     def type_class(self, name):
         if name not in self._cls:
+            if name not in self.type_modules:
+                raise loader.HarnessError(f"no module known for generated type {name}")
             mod = importlib.import_module(self.type_modules[name])
             self._cls[name] = getattr(mod, name)
         return self._cls[name]
